@@ -4,6 +4,15 @@ CHECKS = {
  'C09': dict(text='Six kernel-checked theorems over exact rationals (Props/C09.v): the modelled Atom.occupancy equals the SHELXL rule for every code 10m+p and every free-variable list that defines fv(|m|), complements sum to p, the two sum formulae are the sums the property states. The model (Model/Occ.v) is tied to /repo by evaluating it inside Coq on the same occupation codes and files the implementation was run on (grid of m x p x FVAR lists, random files).',
              note='Trusted: Coq kernel/VM; hand-written model of split_fvar_and_parameter/occupancy/sum formulae validated by correspondence only on the sampled grid; float rounding and round(.,8) not modelled (tolerance 3e-8).',
              technique='Coq proof over Q (lia/lra/ring) + model-vs-implementation correspondence evaluated by vm_compute', design='6 C09'),
+ 'C12': dict(text='Eighteen kernel-checked theorems over the reals (Props/C12.v) about the expression DAGs the trace translator records from /repo on every run (OrthogonalMatrix, its inverse and metric matrix, the four volume routines, frac_to_cart/cart_to_frac, atomic_distance, SDM.vector_length, reciprocal lengths, Ucif->Ustar->Ucart, Ueq): M^T M = G, conventional setting, det M = V, inverse, agreement of the independent conversions, metric distance, Ucart = M N U N^T M^T, Ueq = tr/3, and positive definiteness of U <=> of Ucart. A source change that alters a coefficient, index or sign breaks a proof; the public API is additionally run against a metric-tensor reference to produce the failing input.',
+             note='Trusted: Coq kernel; Reals axioms (sig_forall_dec, sig_not_dec, functional_extensionality_dep, classic); the trace translator (validated each run in floats and in exact Q); real-number semantics of float arithmetic; is_npd decision (QR iteration) checked by correspondence only.',
+             technique='Coq proof over R (field/nsatz/ring) about kernels regenerated from source by a trace translator', design='6 C12'),
+ 'C15': dict(text='Sixteen theorems (Props/C15.v): the traced Atoms.torsion_angle / Atoms.angle / atomic_distance kernels equal the textbook definitions (torsion sign = sign of the full triple product), and for those: invariance under any rigid motion, sign inversion in the mirror image, reversal ABCD=DCBA, range [-180,180] with planar arrangements non-negative, angle symmetric and in [0,180], the clockwise textbook configuration = +90; find_atoms_around as a filter. The API is run against atan2 references, metamorphic relations and brute force.',
+             note='Trusted: Coq kernel; Reals axioms; trace translator; rounding (round(x,9)) not modelled; find_atoms_around is a hand-written filter model checked against the implementation by brute force.',
+             technique='Coq proof over R about traced kernels (Gram-matrix invariance, Lagrange identities)', design='6 C15'),
+ 'C20': dict(text='Fifteen theorems (Props/C20.v) about the traced quatfit kernels: q2mat of a unit quaternion is a proper rotation; Horn identity t.(Q(q)s) = q^T N q for the form the code builds; additivity of the accumulation loop (n = 2, 3 traced); residual identity for any number of points; a maximiser of the form minimises the RMSD over all unit quaternions; exact copies give zero deviation; an orthogonal eigen-decomposition with largest eigenvalue last certifies the maximiser; fit_fragment places fitted atoms on their targets for any fragment position. Jacobi convergence is not proved: its certificate is checked per sample.',
+             note='Trusted: Coq kernel; Reals axioms; trace translator; Jacobi convergence (certificate checked numerically per sample); Euler-Rodrigues surjectivity not proved (optimality over unit quaternions); the n-pair loop modelled as a fold of the traced one-pair form.',
+             technique='Coq proof over R (ring identities on traced kernels, induction over the point list) + per-sample eigen certificate', design='6 C20'),
 }
 NOT_YET = {}
 def main():
